@@ -100,7 +100,7 @@ def run(ctx):
     paths = W.mc_states(ctx, "webstatic", "Routing", "MC_Routing.cfg",
                         overrides=dict(base, Mode="flat", MaxRules=ctx.pick(2, 3), PathLen=3,
                                        Pats=set(ctx.pick(["p_a", "p_ns", "p_any", "p_adig", "p_anydig"],
-                                                         ["p_a", "p_ns", "p_any", "p_adig", "p_anydig", "p_named", "p_adj"]))),
+                                                         ["p_a", "p_ns", "p_any", "p_adig", "p_anydig", "p_named"]))),
                         required_actions=["dispatch", "reverse"], timeout=ctx.pick(300, 1500))
     # (B) host rules and nested routers
     paths += W.mc_states(ctx, "webstatic", "Routing", "MC_Routing.cfg",
